@@ -273,7 +273,7 @@ func (c *distManyCase) describe() string {
 
 func init() {
 	evid.Reg("distribute_many", checkDistributeMany)
-	evid.Tests(evid.Spec{Name: "TestDistributeManyClasses", Kind: "rapid", Quick: 72, Thorough: 1200, QuickShards: 6, ThoroughShards: 6})
+	evid.Tests(evid.Spec{Name: "TestDistributeManyClasses", Kind: "rapid", Quick: 72, Thorough: 720, QuickShards: 6, ThoroughShards: 8})
 	ruleParts["distribute_many"] = "TestDistributeManyClasses: obidistribute with 90-450 output classes, biased to 99..102, 199..202, 399..402 " +
 		"(-c with or without -d: that many distinct classifier values; -n / -H with that argument), --batch-size {1,2,3,5,10,50} and rarely the default 2000; " +
 		"with -c, 0-4 heavy classes (one of them the first class of the file in half of the cases) hold 2-7 times --batch-size records plus a remainder, the others 1-3 records, " +
